@@ -632,6 +632,18 @@ class Interp:
     def e_Call(self, n, env):
         nm = access_path(n.func) or ""
         short = nm.split(".")[-1]
+        if nm == "isinstance" and len(n.args) == 2 and not n.keywords:
+            # the values of this interpreter are scalars and Python containers, never numpy arrays
+            v0 = self.ev(n.args[0], env)
+            tnames = [access_path(t) or "" for t in (n.args[1].elts if isinstance(n.args[1], ast.Tuple) else [n.args[1]])]
+            scalar = isinstance(v0, (I, Aff, D, int, float)) and not isinstance(v0, bool)
+            if scalar and all(t.split(".")[-1] in ("ndarray", "list", "tuple", "dict", "str", "set", "Iterable", "Sequence") for t in tnames):
+                return False
+            if isinstance(v0, (list, tuple)) and all(t.split(".")[-1] in ("ndarray", "dict", "str", "set", "float", "int", "floating", "integer", "Number") for t in tnames):
+                return False
+            if isinstance(v0, list) and tnames == ["list"] or isinstance(v0, tuple) and tnames == ["tuple"]:
+                return True
+            raise Unsupported("isinstance test %s" % text(n))
         args = [self.ev(a, env) for a in n.args]
         kw = {k.arg: self.ev(k.value, env) for k in n.keywords}
         if nm in ("itertools.product", "product") and args and not kw and all(isinstance(a, (list, tuple, range)) for a in args):
